@@ -815,7 +815,9 @@ def _grid(thorough: bool):
 SEQUENCES = ["dddd Do [of] MMMM YYYY HH:mm:ss A", "[on] YYYY-MM-DD [at] HH:mm:ss.SSSSSS [UTC]Z", "YYYY-MM-DDTHH:mm:ss.SSSZZ", "ddd, D MMM YY h:m:s A [Q]Q", "[[escaped]] E/d DDDD",
              "YYYY[Y]MM[M]DD[D] x X", "hh [o'clock] a", "Do MMM, Qo [quarter] - dd", "LLLL [/] LTS"]
 FULL = ["YYYY-MM-DD HH:mm:ss.SSSSSS ZZ", "YYYY-MM-DDTHH:mm:ss.SSSSSSZ", "DD/MM/YYYY hh:mm:ss A SSSSSS Z", "dddd, MMMM Do YYYY, h:mm:ss.SSSSSS A ZZ", "YYYY DDDD HH mm ss SSSSSS Z",
-        "[on] YYYY-MM-DD [at] HH:mm:ss.SSSSSS [offset]Z", "D MMM YYYY H:m:s.SSSSSS ZZ", "YYYY-MM-DD ddd HH:mm:ss.SSSSSS Z", "YYYY-MM-DD dd HH:mm:ss.SSSSSS Z"]
+        "[on] YYYY-MM-DD [at] HH:mm:ss.SSSSSS [offset]Z", "D MMM YYYY H:m:s.SSSSSS ZZ", "YYYY-MM-DD ddd HH:mm:ss.SSSSSS Z", "YYYY-MM-DD dd HH:mm:ss.SSSSSS Z",
+        # every token from_format can read appears in one of these (the single-letter forms, the shorter fractions, the day of the year, the quarter)
+        "Y-M-D H:m:s.S Z", "YY-MM-DD HH:mm:ss.SS ZZ", "YYYY DDD HH:mm:ss.SSS ZZ", "YYYY-MM-DD HH:mm:ss.SSSS Z", "YYYY-MM-DD [Q]Q HH:mm:ss.SSSSSS Z"]
 WEEKDAY_TOKENS = ["d", "E"]
 ZONE_NAMES = ["Europe/Paris", "America/Argentina/Buenos_Aires", "UTC", "Etc/GMT+5", "America/Port-au-Prince"]
 NOMATCH = [("2021-03-07", "YYYY-MM-DD HH:mm"), ("2021/03/07", "YYYY-MM-DD"), ("2021-03", "YYYY-MM-DD"), ("2021-03-07 1x", "YYYY-MM-DD HH"), ("12.30", "HH:mm"), ("Marchh 2021", "MMMM YYYY"),
@@ -942,6 +944,12 @@ def _formatter_tabulate(ctx, thorough: bool) -> None:
                     wrong.append(f"{fmt}: {s[1]!r} -> {r[1] if r[0] == 'raise' else (r[1].get('year'), r[1].get('month'), r[1].get('day'))}")
             ctx.ob("ROUNDTRIP.tabulated", f"locale {loc}: month and day names", not wrong,
                    f"12 month names x 2 widths, 7 day names x 3 widths in {len(cases)} strings formatted then parsed: " + (f"{len(wrong)} do not come back, e.g. {wrong[:3]}" if wrong else "all come back"), f"src/pendulum/locales/{loc}/locale.py")
+        from .. import report
+        known = {(k["rule"], k["construct"]) for k in report.load_known() if k["property"] == "C08" and k.get("status") == "known"}
+        if not any(o.rule == "ROUNDTRIP.tabulated" and o.verdict == report.FAIL and (o.rule, o.construct) not in known for o in ctx.obs):
+            # every token that from_format reads came back with its value (in every locale): which arm of which method stores it is then not a property
+            ctx.established(("TABLES.parse-arm", "TABLES.parse-entry", "TABLES.slots"), "token/", "ROUNDTRIP.tabulated")
+            ctx.established(("TABLES.slots",), "Formatter.parse", "ROUNDTRIP.tabulated")
         # 4. absent date fields come from `now`; no match -> ValueError
         wrong = []
         for fmt in ("HH:mm:ss", "h:mm A", "H", "HH:mm:ss.SSS"):
@@ -967,6 +975,7 @@ def run(ctx) -> None:
     m = pmod(FMT)
     T = _tables(m)
     docs = documented_tokens()
+    ctx.step(_formatter_tabulate, ctx, ctx.tier == "thorough")       # the value rules first: what they establish is no longer a question of form
     lang = ctx.guard("TABLES.language", "Formatter._TOKENS", token_language, m.rel)
     if lang is not None:
         _writer(ctx, m, T, docs, lang)
@@ -979,7 +988,6 @@ def run(ctx) -> None:
     ctx.step(_from_format, ctx)
     ctx.step(_defaulting, ctx, m)
     ctx.step(_timestamp_fraction, ctx, m)
-    ctx.step(_formatter_tabulate, ctx, ctx.tier == "thorough")
     ctx.expect_min("SCALE.timestamp", 1)
     ctx.expect_min("DEFAULTS.fill", 6)
     ctx.expect_min("TABLES.language", 40)
